@@ -246,6 +246,20 @@ impl TableProvider for ShardedParquetTable {
         let mut scaled = base.clone();
         scaled.row_count = self.rows.max(0) as usize;
         scaled.total_byte_size = self.bytes;
+        // A whole-table distinct-value estimate says nothing about a subset of
+        // the rows — except that a column unique in the table is unique in
+        // every shard of it. Left as it was, `ndv_est` (a whole-table number)
+        // next to the SCALED row count reads as "ndv >= rows", i.e. "unique
+        // key", and GroupKeyReduction then drops real GROUP BY keys on the
+        // shard: the partial aggregates merge groups that differ.
+        let base_rows = base.row_count as u64;
+        let shard_rows = scaled.row_count as u64;
+        for cs in scaled.column_stats.values_mut() {
+            cs.ndv_est = match cs.ndv_est {
+                Some(n) if n >= base_rows && base_rows > 0 => Some(shard_rows),
+                _ => None,
+            };
+        }
         Some(scaled)
     }
 
@@ -393,6 +407,46 @@ mod tests {
         let path = lineitem();
         let shard = ShardedParquetTable::new(schema_of(&path), Vec::new(), None);
         assert!(shard.parquet_files().is_none());
+    }
+
+    /// A shard's statistics must not turn a whole-table distinct-count into
+    /// a uniqueness claim about the shard (ndv >= scaled row count).
+    #[test]
+    fn shard_statistics_do_not_claim_uniqueness_the_table_does_not_have() {
+        use crate::physical::operators::ColumnStatistics;
+        use arrow::datatypes::{DataType, Field, Schema};
+        let schema = Arc::new(Schema::new(vec![Field::new("a", DataType::Int64, true)]));
+        let mut column_stats = std::collections::HashMap::new();
+        column_stats.insert(
+            "a".to_string(),
+            ColumnStatistics {
+                null_count: Some(0),
+                ndv_est: Some(5),
+                ..Default::default()
+            },
+        );
+        let base = TableStatistics {
+            row_count: 24,
+            total_byte_size: 2400,
+            column_stats,
+        };
+        let split = Split {
+            table: "t".into(),
+            path: std::path::PathBuf::from("t.parquet"),
+            file: "t.parquet".into(),
+            row_group: 0,
+            row_offset: 0,
+            num_rows: 4,
+            bytes: 400,
+        };
+        let shard = ShardedParquetTable::new(schema, vec![split], Some(base));
+        let st = shard.statistics().unwrap();
+        assert_eq!(st.row_count, 4);
+        let a = &st.column_stats["a"];
+        assert!(
+            a.ndv_est.map(|n| (n as usize) < st.row_count).unwrap_or(true),
+            "5 distinct values in 24 rows is not a unique key of a 4-row shard: {a:?}"
+        );
     }
 
     #[test]
